@@ -929,7 +929,7 @@ PROPERTIES = {
             "expanded serde impls — unknown keys hit Error::unknown_field, accepted keys = struct fields, no __ignore variant, missing keys come from FormattingConfig::default(), "
             "duplicates rejected, enum values and encoding labels reject unknown input; (c) FormattingOrchestrator::run (the only route to file effects) is guarded by Ok(config), "
             "the Err arm reports and returns; (d) option inventory: struct fields = docs() = docs/CONFIGURATION.md; (e) every option field is read only at its conversion site; "
-            "begin_style maps Always_Wrap -> true only; documented defaults. Not decided: the arithmetic of the ancestor walk; the `config` crate's layering semantics.", []),
+            "begin_style maps Always_Wrap -> true only; documented defaults. Not decided: the arithmetic of the ancestor walk; the `config` crate's layering semantics. Added in round 6: (b) includes the decision table of the encoding visitor (Native only for the word `native`).", []),
     "C15": (check_c15,
             "Clause 1 of C15 only (requesting cursor tracking never changes the formatted text), as type-level non-interference: (a) the cursor list flows only into process_cursors, "
             "the tracker is used only by relocate_cursors / notify_token_deleted, no branch of format_into_buf depends on either, reconstruct receives only the formatted tokens; "
@@ -937,5 +937,5 @@ PROPERTIES = {
             "the token/formatting/reconstructor types has interior mutability, no unsafe code and no mutable static on the path, cursor code calls no token mutator — so by Rust's "
             "aliasing rules nothing the tracker does can be observed by reconstruct. Cursor arithmetic panics are audited under C04.b (two defects fixed there). "
             "Of clauses 2-3 only one structural necessary condition is decided: (d) cursors are mapped independently of each other — collections and iterators of cursors are only traversed completely and element-wise. "
-            "Not decided: where a cursor lands (clauses 2-3).", []),
+            "Not decided: where a cursor lands (clauses 2-3). Added in rounds 4-6, structural necessary conditions of clauses 2-3: (e) the configured newline length and the layout counters measure only tokens known not to be ignored (or under the predicate under which the emission step writes the newline itself); (f) byte-exact cut of cursor text; (g) cursor offsets reach the core unmodified; (h) offsets into changed text and into kept multi-byte blanks are moved to a character boundary; (i) every observation that decides what the emission step writes in front of a token is consulted by offset_for_token's family.", []),
 }
